@@ -1,13 +1,23 @@
 import Dmn.Model.Sexp
 import Dmn.Model.Workspace
 
-/-! Driver handler for C17: `(c17 run (op…) (probe-name…))`. -/
+/-! Driver handler for C17: `(c17 run (op…) (probe-name…))` and `(c17 spec (op…) (probe-name…))`
+(names: atoms, or `(s …)` when they have white space). -/
 
 namespace Dmn.Driver.C17
 open Dmn Dmn.WS
 
+/-- a namespace / model name: an atom, or `(s …)` when it has white space -/
+def nameOf : Sexp → Option String
+  | .atom a => some a
+  | x => Sexp.str? x
+
 def defOf : List Sexp → Option Def
-  | [.atom ns, .atom name, b] => (Sexp.bool? b).map (fun b => ⟨ns, name, b⟩)
+  | [ns, name, b] => do
+    let ns ← nameOf ns
+    let name ← nameOf name
+    let b ← Sexp.bool? b
+    pure ⟨ns, name, b⟩
   | _ => none
 
 def opOf : Sexp → Option Op
@@ -15,7 +25,10 @@ def opOf : Sexp → Option Op
   | .atom "deploy" => some .deploy
   | .list (.atom "add" :: r) => (defOf r).map .add
   | .list (.atom "replace" :: r) => (defOf r).map .replace
-  | .list [.atom "remove", .atom ns, .atom name] => some (.remove ns name)
+  | .list [.atom "remove", ns, name] => do
+    let ns ← nameOf ns
+    let name ← nameOf name
+    pure (.remove ns name)
   | _ => none
 
 def resStr : Res → String
@@ -67,6 +80,18 @@ def handle (args : List Sexp) : String :=
       let ev := Spec.evaluable [] [] ops
       let sev := " ".intercalate ("evaluable" :: probes.filter (fun p => ev.contains p))
       s!"((({results}) ({defs}) ({byNs}) ({byName}) ({evals}) ({can})) (({sresults}) ({sdefs}) ({sev})))"
+  -- the abstract workspace alone (keys compared verbatim): results of the operations and the positions of the
+  -- probe names that can be evaluated afterwards; for histories driven through the server's handlers
+  | [.atom "spec", .list ops, .list probes] =>
+    match ops.mapM opOf, probes.mapM nameOf with
+    | some ops, some probes =>
+      let (_, srs) := specResults [] ops
+      let ev := Spec.evaluable [] [] ops
+      let idx := (List.range probes.length).filter (fun i => match probes[i]? with | some p => ev.contains p | none => false)
+      let sresults := " ".intercalate ("results" :: srs.map resStr)
+      let sev := " ".intercalate ("evaluable" :: idx.map toString)
+      s!"(({sresults}) ({sev}))"
+    | _, _ => "(error bad-op)"
   | _ => "(error bad-request)"
 
 end Dmn.Driver.C17
